@@ -102,6 +102,8 @@ def gate(src):
     m = re.findall(r"using\s+type\s*=\s*typename\s+detail::actual_stream<(.*?),\s*Record\s*,\s*Formatter\s*,\s*Sink\s*,\s*Filter\s*,\s*Severity\s*>::type\s*;", src, flags=re.S)
     if len(m) == 1:
         cond = " ".join(m[0].split())
+        while cond.startswith("(") and cond.endswith(")"):     # (a > b) must be parenthesised inside a template argument list
+            cond = cond[1:-1].strip()
         a = re.fullmatch(r"Severity\s*" + OPRE + r"\s*severity_level::NITRO_LOG_MIN_SEVERITY", cond)
         b = re.fullmatch(r"severity_level::NITRO_LOG_MIN_SEVERITY\s*" + OPRE + r"\s*Severity", cond)
         if a:
